@@ -133,9 +133,19 @@ expected (int m, unsigned long count, const unsigned char *rb, struct expect *e)
       }
     case M_SUNMD5:
       {
+        /* randomised window: clamped count plus 16 bits taken from the random bytes, never beyond the documented
+           maximum of crypt.5 (4,294,963,199 = 2^32 - 1 - 4096: crypt adds 4096 basic rounds in 32-bit arithmetic, so
+           a larger field would wrap to a cost below the method's minimum) */
         unsigned long long c = clampu (count, 32768, 4294967295ULL - 65536);
         e->ok = 1;
-        e->lo = e->hi = c + ((unsigned) rb[0] << 8) + rb[1];
+        e->lo = c;
+        e->hi = c + ((unsigned) rb[0] << 8) + rb[1];
+        if (e->hi > 4294963199ULL)
+          e->hi = 4294963199ULL;
+        if (e->lo > e->hi)
+          e->lo = e->hi;
+        if (e->hi == c + ((unsigned) rb[0] << 8) + rb[1])
+          e->lo = e->hi;        /* below the cap the value is exact */
         break;
       }
     case M_BSDI:
